@@ -62,6 +62,7 @@ type clientScript struct {
 	StopReadingAt  int          // >=0: stops reading stdin after that many requests (and stalls)
 	IgnoreEOF      bool         // does not exit when stdin is closed
 	Fault          int          // cf*
+	SilentAfterFault bool       // after the faulty output the client writes nothing more, but lives on
 	FaultAfter     int          // message faults: injected after this many answers were written
 	CutAt          int          // cfCut: absolute output byte offset
 	PrematureName  string       // cfPremature: answered while request number FaultAfter is only partly read
@@ -90,6 +91,7 @@ type writtenAnswer struct {
 
 type simClient struct {
 	stdoutClosed bool // cfCloseStdout fired
+	silenced     bool // SilentAfterFault: no further output after the faulty bytes
 	sc   clientScript
 	sim  *simrt.Sim
 	name string
@@ -154,6 +156,9 @@ func (c *simClient) die() {
 func (c *simClient) rawWrite(b []byte, site string) bool {
 	if c.dead {
 		return false
+	}
+	if c.silenced {
+		return false // the client went silent after its faulty output (but stays alive)
 	}
 	if c.sc.Fault == cfCut && c.outBytes+len(b) > c.sc.CutAt {
 		keep := c.sc.CutAt - c.outBytes
@@ -282,6 +287,11 @@ func (c *simClient) injectMessageFault() {
 	c.faultFired[cfNames[c.sc.Fault]]++
 	c.sim.MixLog("fault:" + cfNames[c.sc.Fault])
 	c.rawWrite(b, "simclient.fault")
+	if c.sc.SilentAfterFault {
+		// nothing follows the faulty bytes: the process neither writes nor exits
+		c.silenced = true
+		c.faultFired["silent-after-fault"]++
+	}
 }
 
 func (c *simClient) planFor(i int) answerPlan {
